@@ -219,6 +219,44 @@ Fixpoint scan_page (retries : nat) (script : list presp) (made : nat) {struct sc
       end
   end.
 
+(* ---- one index = page scan + candidate scan; several repositories in order --------------------
+   Repository.get_dist (repository.py) and MultiRepository.get_dist (repos/multi.py; also what
+   PooledCandidateMultiRepository, i.e. --index-url A --extra-index-url B, runs): the repositories
+   are asked in order, ONLY NoCandidateException makes the loop go on to the next one. *)
+Record repo := mkRepo {
+  r_retries : nat;            (* PyPIRepository(retries=...) *)
+  r_pages : list presp;       (* answers to the requests for this index's project page *)
+  r_listing : list cand       (* the candidates of the page served with status 200, in sort order *)
+}.
+
+Section Multi.
+Variable sha : bytes -> string.
+Variable meta : fname -> bytes -> mres.
+Variable allow_sdist : bool.
+Variable maxdg : option N.
+
+(* by convention of the fault scripts only a 200 answer carries the listing; every other body
+   that is parsed (404 page, 204, 3xx) has no links *)
+Definition repo_get_dist (r : repo) (w : world) : world * sres :=
+  match fst (scan_page (r_retries r) (r_pages r) 0) with
+  | PExn e => (w, SExn e)
+  | PParsed st => scan sha meta allow_sdist maxdg w (if N.eqb st 200 then r_listing r else []) []
+  end.
+
+(* returns the final world, the result, and the result of every repository that was asked *)
+Fixpoint multi_get_dist (rs : list repo) (w : world) : world * sres * list sres :=
+  match rs with
+  | [] => (w, SExn NoCandidate, [])
+  | r :: rest =>
+      let (w1, res) := repo_get_dist r w in
+      match res with
+      | SExn NoCandidate =>
+          let '(w2, res2, tr) := multi_get_dist rest w1 in (w2, res2, res :: tr)
+      | _ => (w1, res, [res])
+      end
+  end.
+End Multi.
+
 (* ---- concrete instances used by extraction / T2 (trusted base) ----------------------- *)
 Fixpoint toy_acc (s : string) (h : N) : N :=
   match s with
